@@ -812,15 +812,25 @@ def python_wf(dump):
     ins = [k for k, (t, _) in gates.items() if t == 'INPUT']
     if sorted(ins) != sorted(dump['inputs']) or len(set(dump['inputs'])) != len(dump['inputs']):
         return 'input list is not the set of INPUT gates'
-    pos = {k: i for i, k in enumerate(gates)}
     want = {}
     for k, (t, ops) in gates.items():
         for o in ops:
             if o not in gates:
                 return f'operand {o} of {k} is missing'
-            if pos[o] >= pos[k]:
-                return f'operand {o} of {k} is not defined before it'
             want.setdefault(o, []).append(k)
+    # acyclic (the storage order of the gate map is not part of well-formedness): Kahn
+    indeg = {k: len(set(ops)) for k, (t, ops) in gates.items()}
+    ready = [k for k, d in indeg.items() if d == 0]
+    done = 0
+    while ready:
+        k = ready.pop()
+        done += 1
+        for u in set(want.get(k, [])):
+            indeg[u] -= 1
+            if indeg[u] == 0:
+                ready.append(u)
+    if done != len(gates):
+        return 'the gates form a cycle'
     have = {k: sorted(v) for k, v in dump['users'] if v}
     if have != {k: sorted(v) for k, v in want.items()}:
         return 'users index is not the inverse operand relation'
